@@ -72,7 +72,8 @@ _iov("C03", "OwningIovec is a faithful FIFO byte pipe",
      "correspondence run and the per-object shadow oracle only (the multi-object frame theorem is C20's).")
 _iov("C04", "Pending backpatches are never observable; filled ones unblock everything",
      ["Woodpile.Props.C04.stable_prefix_has_no_hole", "Woodpile.Props.C04.stable_is_prefix_before_first_hole",
-      "Woodpile.Props.C04.observed_bytes_immutable", "Woodpile.Props.C04.ok_iff_no_pending",
+      "Woodpile.Props.C04.observed_bytes_immutable", "Woodpile.Props.C04.stable_slices_never_overwritten",
+      "Woodpile.Props.C04.ok_iff_no_pending",
       "Woodpile.Props.C04.all_filled_unblocks"],
      ["Woodpile.Props.C04"], ["C04"], ["A", "R"],
      "Kernel-checked theorems on the structural model, for every history of one iovec (same vocabulary as C03): the stable prefix - from which "
